@@ -70,7 +70,7 @@ def _root_spec(full, S):
         ["readme.txt", "f", "readme\n"],
         # content that points outside: gophermap and link-file entries whose selectors climb out of the root
         ["gm/gophermap", "f", "iinfo\n0Out abs\t/../secret.txt\n0Out rel\t../../secret.txt\n1Out dir\t/../rootx\n0In\t/readme.txt\n"
-                              "0Out two\t/dir/../../secret.txt\n"],
+                              "0Out two\t/dir/../../secret.txt\nhMail me\tURL:mailto:a@b\n0No slash\tx/file.txt\t+\n"],
         ["lk/.links", "f", "Name=Out abs\nType=0\nPath=/../secret.txt\nHost=+\nPort=+\n\nName=Out rel\nType=0\nPath=../../secret.txt\n\n"
                            "Name=Out dir\nType=1\nPath=/../rootx\n"],
         ["lk/in.txt", "f", "in\n"],
@@ -123,6 +123,9 @@ def _outside_spec(variant):
         ["secret.txt", "f", tag + "\n"],
         ["secret.txt.abstract", "f", tag + " abstract of the outside file\n"],
         ["rootx/.abstract", "f", tag + " abstract of the outside directory\n"],
+        # siblings of the root whose names extend the root's name by a selector that lacks its leading slash
+        ["rootURL:mailto:a@b", "f", tag + " sibling named like a URL link\n"],
+        ["rootURL:mailto:a@b.abstract", "f", tag + " abstract of that sibling\n"],
         ["secret/inner.txt", "f", tag + " inner\n"],
         ["rootx/file.txt", "f", tag + " sibling\n"],
         ["rootx/readme.txt", "f", tag + " sibling readme\n"],
